@@ -1,0 +1,12 @@
+//go:build verif
+
+package model
+
+// VerifOptions exposes the option table to the verification hook.
+func VerifOptions() map[string][]string {
+	out := make(map[string][]string, len(options))
+	for k, v := range options {
+		out[k] = append([]string(nil), v...)
+	}
+	return out
+}
